@@ -201,6 +201,10 @@ def _rows(repo, col):
         q = T.find(t, lambda x: x.op == "call" and x.name == "query_channel_states_and_params")
         if q is not None and len(q.args) >= 3:
             return q.args[2]
+        if t.op == "dictcomp" and len(t.args) == 3:      # {k: D[k][rows] for k in names}
+            k_, v_ = t.args[0], t.args[1]
+            if v_.op == "sub" and v_.args[0].op == "sub" and v_.args[0].args[1].key() == k_.key():
+                return v_.args[1]
         l = T.find(t, lambda x: _loc_parts(x) is not None)
         if l is not None:
             return _loc_parts(l)[1]
@@ -220,9 +224,13 @@ def _rows(repo, col):
     # each gather reads the names of its own kind: states by the channel's state names, parameters by its parameter names
     for lab, t_, want in (("states", st, "channel_states"), ("params", pp, "channel_params")):
         q = T.find(t_, lambda x: x.op == "call" and x.name == "query_channel_states_and_params")
-        if q is None or len(q.args) < 2:
+        if q is not None and len(q.args) >= 2:
+            names_t = q.args[1]
+        elif t_.op == "dictcomp" and len(t_.args) == 3:
+            names_t = t_.args[2]         # {k: D[k][rows] for k in NAMES}
+        else:
             continue
-        names = {x.name for x in T.find_all(q.args[1], lambda x: x.op == "attr" and x.name in ("channel_states", "channel_params"))}
+        names = {x.name for x in T.find_all(names_t, lambda x: x.op == "attr" and x.name in ("channel_states", "channel_params"))}
         col.check(names == {want}, "R-C14-rows", fi, f"the {lab} handed to init_state are the channel's own {want}", f"names from channel.{want}",
                   f"the {lab} argument is gathered with the names of {sorted(names)}", node=call)
     # the voltage column must be the voltage
